@@ -134,8 +134,8 @@ def parallel_simulation(system, index, spec_json, seed):
 
 def run(sh):
     from simprocesd.model import System
-    n = 72 if sh.tier == 'quick' else 1600
-    npar = 24 if sh.tier == 'quick' else 160
+    n = 72 if sh.tier == 'quick' else 8000
+    npar = 24 if sh.tier == 'quick' else 400
     profiles = ['general', 'routing', 'resources', 'faults']
     for i in sh.share(n):
         seed = core.stable_int(sh.seed, 'C14', i) % (1 << 30)
